@@ -74,6 +74,10 @@ FAMILY = {
         _sk(pre=[], effs=[10], traj=[3], goal=[2], second_action=[12], pre2=[]),
         _sk(pre=[], effs=[12, 10], traj=[4, 5], goal=[0]),
         _sk(pre=[], effs=[12], traj=[6], goal=[0], second_action=[0], pre2=[]),
+        # an action that touches only ONE side of a binary constraint (regression of the other side is the identity)
+        _sk(pre=[], effs=[10], traj=[3], goal=[2], second_action=[0], pre2=[]),   # sometime-after(p(o1), b); a2 only deletes b
+        _sk(pre=[], effs=[10], traj=[2], goal=[0], second_action=[12], pre2=[]),  # sometime-before(b, p(o1)); a only adds p, a2 only adds b
+        _sk(pre=[], effs=[10], traj=[4], goal=[2], second_action=[0], pre2=[]),   # always(b or not p(o2)); a2 only deletes b
     ],
     "undefined_initial_numeric": [
         _sk(pre=[], effs=[11, 12], goal=[9]),
